@@ -12,7 +12,7 @@ from ..workloads import text as WT
 
 MANIFEST = dict(
     technique="runtime contracts on clone() and clone_from_root() (shadow incl. ids, constant types, operand sides and unary side flags; object disjointness; position of the returned node) + harness-level mutation-independence and evaluate/print equality checks",
-    text="Every outermost clone()/clone_from_root() call on parsed, rewritten and constructor-built trees (one-operand nodes with the operand on either side, repeated kinds on every path) is decided at exit; the harness then evaluates and prints both trees and mutates each side through the public API while re-shadowing the other. Held on the calls observed.",
+    text="Every outermost clone()/clone_from_root() call on parsed, rewritten and constructor-built trees (one-operand nodes with the operand on either side, repeated kinds on every path) is decided at exit; the harness then evaluates and prints both trees, mutates each side through the public API while re-shadowing the other, and re-parents subtrees into new trees before cloning from the root again (stale per-node state); a clone_from_root that raises on a well-linked tree is a violation. Held on the calls observed.",
     note="Trusts our shadows; clone_from_root is exercised in its documented form (called on the node to locate).",
     ref="DESIGN.md 3/C13",
 )
